@@ -231,3 +231,33 @@ def respell(struct, rnd):
             blocks.insert(rnd.randint(0, len(blocks)), [i, [[k, v]]])
     third = bool(blocks) or (rnd.random() < 0.5)
     return {"els": [list(e) for e in struct["els"]], "tuples": tuples, "blocks": blocks, "third": third}
+
+
+def mol_to_sentence(mol, order=None, bond_order=None, flips=None):
+    """Spell an abstract molecule as a (generally non-canonical) TUCAN string: Hill formula,
+    atoms numbered in blocks of increasing atomic number (own table), inside a block in the
+    given listing order; tuples in the given order / orientation; one attribute block per
+    labelled atom."""
+    n = mol.n
+    order = list(range(n)) if order is None else order
+    ranked = sorted(order, key=lambda i: mol.atoms[i][0])  # stable: listing order inside a block
+    index = {a: k + 1 for k, a in enumerate(ranked)}
+    counts = mol.element_counts()
+    formula = "".join(sym + (str(counts[sym]) if counts[sym] > 1 else "") for sym in hill_order(counts))
+    bidx = list(range(mol.m)) if bond_order is None else bond_order
+    tuples = []
+    for k in bidx:
+        i, j, _ = mol.bonds[k]
+        if flips is not None and flips[k]:
+            i, j = j, i
+        tuples.append(f"({index[i]}-{index[j]})")
+    blocks = []
+    for a in order:
+        z, mass, rad = mol.atoms[a][:3]
+        props = ([f"mass={mass}"] if mass else []) + ([f"rad={rad}"] if rad else [])
+        if props:
+            blocks.append(f"({index[a]}:" + ",".join(props) + ")")
+    out = formula + "/" + "".join(tuples)
+    if blocks:
+        out += "/" + "".join(blocks)
+    return out
